@@ -61,6 +61,15 @@ Theorem C09_snapshot_isolation : forall evs s r,
 Proof. exact snapshot_isolation. Qed.
 Print Assumptions C09_snapshot_isolation.
 
+Theorem C09_reader_sees_acquire_time : forall s rd r evs name t,
+  zinv s -> z_cur s + ncommits evs + 2 < LIM -> stale_free evs ->
+  forallb (fun e => negb (touches_reader r e)) evs = true ->
+  exists before,
+    trace s rd (EAcquire r :: evs ++ [EQuery r name t; EWalk r]) =
+    before ++ [OAnswer (query s (z_cur s) name t); OWalk (walk s (z_cur s))].
+Proof. exact reader_sees_acquire_time. Qed.
+Print Assumptions C09_reader_sees_acquire_time.
+
 Theorem C09_commit_atomic : forall s ops,
   zinv s -> z_writer s = None -> z_cur s + 2 < LIM -> all_data ops ->
   let sN := run s ([EWAcquire; EWOpen] ++ ops) in
